@@ -26,6 +26,7 @@ def generate(G):
     rel("exp_pass", "Exp", [L([2])], 1, False, "quick", stubs=("exp",))
     rel("relumix_pass", "ReluMix", [L([2], "Sgn"), L([2], "Sgn")], 1, False, "thorough")
     rel("relushare_pass", "ReluShare", [L([1], "Sgn")], 1, False, "quick")
+    rel("relushare_dead_pass", "ReluShare", [L([2], "Neg1")], 1, False, "quick")
     rel("div_pass", "Div", [L([2]), L([2], "Pos")], 1, False, "thorough", stubs=("powf",))
     rel("untracked_leaf", "MulAddShare", [L([2]), L([2], tracked=False)], 1, False, "quick")
     rel("all_untracked", "MulAddShare", [L([2], tracked=False), L([2], tracked=False)], 0, False, "thorough")
